@@ -11,6 +11,10 @@ package memberlist
 // GetKeys shows it, the primary as GetPrimaryKey shows it, and for every key list any
 // earlier GetKeys call of the sequence returned whether it still has the content it had
 // when it was returned.  TLC (spec/TraceKeyring.tla) judges the recorded trace.
+// Every line also carries the ring the call started from (what the previous reading
+// showed), so a line can be judged on its own.  The TLC sequences share most of their
+// prefixes; with VERIF_DEDUP=1 a call is executed every time but recorded only when the
+// same call history has not already produced the identical line in this process.
 
 import (
 	"bufio"
@@ -18,6 +22,7 @@ import (
 	"encoding/hex"
 	"encoding/json"
 	"fmt"
+	"hash/fnv"
 	"math/rand"
 	"os"
 	"strconv"
@@ -55,7 +60,9 @@ type vKRLine struct {
 	Klen  int      `json:"klen"`
 	Nkeys []string `json:"nkeys"` // NewKeyring: the key list
 	Nlens []int    `json:"nlens"`
-	Res   string   `json:"res"` // ok | error | panic:<msg>
+	Pre   []string `json:"pre"`   // the ring before the call (previous reading), as key ids
+	Plens []int    `json:"plens"` // byte lengths of those keys
+	Res   string   `json:"res"`   // ok | error | panic:<msg>
 	Pan   bool     `json:"pan"`
 	Ring  []string `json:"ring"` // GetKeys after the call, as key ids
 	Lens  []int    `json:"lens"` // byte lengths of those keys
@@ -138,9 +145,11 @@ type vKRHeld struct {
 }
 
 type vKRRun struct {
-	t    *testing.T
-	kr   *Keyring
-	held []vKRHeld
+	t        *testing.T
+	kr       *Keyring
+	held     []vKRHeld
+	lastRing []string // the previous reading
+	lastLens []int
 }
 
 func (r *vKRRun) hold(s [][]byte) {
@@ -192,12 +201,24 @@ func (r *vKRRun) observe(l *vKRLine) {
 		}
 		r.hold(ring) // the reading itself is a key list returned to a caller
 		l.Held = append(l.Held, true)
+		r.lastRing, r.lastLens = l.Ring, l.Lens
 	}
+}
+
+// altered: some key list handed out earlier no longer has the content it was returned with
+func (l *vKRLine) altered() bool {
+	for _, ok := range l.Held {
+		if !ok {
+			return true
+		}
+	}
+	return false
 }
 
 func (r *vKRRun) apply(op string, key string, nkeys []string) (l vKRLine) {
 	l.Ev, l.Op, l.Key = "KR", op, key
 	l.Nkeys, l.Nlens, l.Ring, l.Lens, l.Held, l.Xfail = []string{}, []int{}, []string{}, []int{}, []bool{}, []string{}
+	l.Pre, l.Plens = append([]string{}, r.lastRing...), append([]int{}, r.lastLens...)
 	kb := vKRKey(r.t, key)
 	l.Klen = len(kb)
 	func() {
@@ -257,8 +278,8 @@ func (r *vKRRun) apply(op string, key string, nkeys []string) (l vKRLine) {
 	select {
 	case <-done:
 	case <-time.After(5 * time.Second):
-		return vKRLine{Ev: "KR", Op: op, Key: key, Klen: l.Klen, Nkeys: l.Nkeys, Nlens: l.Nlens, Res: l.Res + " (ring locked afterwards)",
-			Pan: true, Ring: []string{}, Lens: []int{}, Held: []bool{}, Xfail: []string{}}
+		return vKRLine{Ev: "KR", Op: op, Key: key, Klen: l.Klen, Nkeys: l.Nkeys, Nlens: l.Nlens, Pre: l.Pre, Plens: l.Plens,
+			Res: l.Res + " (ring locked afterwards)", Pan: true, Ring: []string{}, Lens: []int{}, Held: []bool{}, Xfail: []string{}}
 	}
 	return l
 }
@@ -280,7 +301,8 @@ func vKRShard() (int, int) {
 	return shard, nshard
 }
 
-// vKRPaths calls f for every path of the wanted kind that belongs to this shard
+// vKRPaths calls f for every path of the wanted kind that belongs to this shard; a shard
+// is a contiguous block of the path file (neighbouring TLC sequences share their prefix)
 func vKRPaths(t *testing.T, kind string, f func(idx int, p *vKRPath, w *bufio.Writer)) {
 	paths, trace := os.Getenv("VERIF_PATHS"), os.Getenv("VERIF_TRACE")
 	if paths == "" || trace == "" {
@@ -288,40 +310,49 @@ func vKRPaths(t *testing.T, kind string, f func(idx int, p *vKRPath, w *bufio.Wr
 	}
 	vKRSetup(t)
 	shard, nshard := vKRShard()
-	in, err := os.Open(paths)
-	if err != nil {
-		t.Fatal(err)
+	scan := func(each func(idx int, line []byte)) {
+		in, err := os.Open(paths)
+		if err != nil {
+			t.Fatal(err)
+		}
+		defer in.Close()
+		sc := bufio.NewScanner(in)
+		sc.Buffer(make([]byte, 1<<20), 1<<24)
+		idx := 0
+		for sc.Scan() {
+			idx++
+			each(idx, sc.Bytes())
+		}
+		if err := sc.Err(); err != nil {
+			t.Fatal(err)
+		}
 	}
-	defer in.Close()
+	total := 0
+	scan(func(int, []byte) { total++ })
+	from, to := shard*total/nshard, (shard+1)*total/nshard // 0-based, [from, to)
 	out, err := os.Create(trace)
 	if err != nil {
 		t.Fatal(err)
 	}
 	w := bufio.NewWriterSize(out, 1<<20)
-	sc := bufio.NewScanner(in)
-	sc.Buffer(make([]byte, 1<<20), 1<<24)
-	idx, done := 0, 0
-	for sc.Scan() {
-		idx++
-		if (idx-1)%nshard != shard {
-			continue
+	done := 0
+	scan(func(idx int, line []byte) {
+		if idx-1 < from || idx-1 >= to {
+			return
 		}
 		var p vKRPath
-		if err := json.Unmarshal(sc.Bytes(), &p); err != nil {
+		if err := json.Unmarshal(line, &p); err != nil {
 			t.Fatalf("path %d: %v", idx, err)
 		}
 		if p.Kind == "" {
 			p.Kind = "ring"
 		}
 		if p.Kind != kind {
-			continue
+			return
 		}
 		f(idx, &p, w)
 		done++
-	}
-	if err := sc.Err(); err != nil {
-		t.Fatal(err)
-	}
+	})
 	w.Flush()
 	out.Close()
 	if p := os.Getenv("VERIF_STATS"); p != "" {
@@ -329,29 +360,56 @@ func vKRPaths(t *testing.T, kind string, f func(idx int, p *vKRPath, w *bufio.Wr
 	}
 }
 
-// runs one call sequence; stops after a failed NewKeyring (there is no ring) and after a
-// panic (the object is in an unknown state)
-func vKRSequence(t *testing.T, w *bufio.Writer, c int, init vKRInit, ops []vKROp) {
+// vKRSeen remembers, per call history, what the last call of that history recorded
+type vKRSeen map[string]uint64
+
+// record writes the line unless the same call history already produced the identical line
+func (seen vKRSeen) record(w *bufio.Writer, hist string, l vKRLine) {
+	if seen != nil {
+		c, i := l.Case, l.I
+		l.Case, l.I = 0, 0
+		b, _ := json.Marshal(l)
+		h := fnv.New64a()
+		h.Write(b)
+		l.Case, l.I = c, i
+		if old, ok := seen[hist]; ok && old == h.Sum64() {
+			return
+		}
+		seen[hist] = h.Sum64()
+	}
+	vKRWrite(w, l)
+}
+
+// runs one call sequence; stops after a failed NewKeyring (there is no ring), after a
+// panic (the object is in an unknown state) and after a call that altered a key list
+// handed out earlier (nothing later could be attributed to a single call)
+func vKRSequence(t *testing.T, w *bufio.Writer, c int, init vKRInit, ops []vKROp, seen vKRSeen) {
 	r := &vKRRun{t: t}
 	l := r.apply("N", init.Primary, init.Keys)
 	l.Case, l.I = c, 1
-	vKRWrite(w, l)
-	if l.Pan || r.kr == nil {
+	hist := fmt.Sprintf("N%q/%q", init.Keys, init.Primary)
+	seen.record(w, hist, l)
+	if l.Pan || r.kr == nil || l.altered() {
 		return
 	}
 	for i, op := range ops {
 		l := r.apply(op.Op, op.Key, nil)
 		l.Case, l.I = c, i+2
-		vKRWrite(w, l)
-		if l.Pan {
+		hist += ";" + op.Op + op.Key
+		seen.record(w, hist, l)
+		if l.Pan || l.altered() {
 			return
 		}
 	}
 }
 
 func TestVerifKeyringReplay(t *testing.T) {
+	var seen vKRSeen
+	if os.Getenv("VERIF_DEDUP") == "1" {
+		seen = vKRSeen{}
+	}
 	vKRPaths(t, "ring", func(idx int, p *vKRPath, w *bufio.Writer) {
-		vKRSequence(t, w, idx, p.Init, p.Ops)
+		vKRSequence(t, w, idx, p.Init, p.Ops, seen)
 	})
 }
 
@@ -424,7 +482,7 @@ func TestVerifKeyringRandom(t *testing.T) {
 			}
 			ops = append(ops, op)
 		}
-		vKRSequence(t, w, c*nshard+shard, init, ops)
+		vKRSequence(t, w, c*nshard+shard, init, ops, nil)
 	}
 	w.Flush()
 	out.Close()
@@ -486,7 +544,7 @@ func TestVerifKeyRotationReplay(t *testing.T) {
 			l.Case, l.I, l.Node = idx, i, st.Node
 			exchange(&l)
 			vKRWrite(w, l)
-			if l.Pan || r.kr == nil {
+			if l.Pan || r.kr == nil || l.altered() {
 				return
 			}
 		}
@@ -500,7 +558,7 @@ func TestVerifKeyRotationReplay(t *testing.T) {
 			l.Case, l.I, l.Node = idx, i, op.Node
 			exchange(&l)
 			vKRWrite(w, l)
-			if l.Pan {
+			if l.Pan || l.altered() {
 				return
 			}
 		}
